@@ -35,7 +35,7 @@ def run_contract_task(args):
         from pyvc.values import SourceIndex
         from pyvc.verify import verify_contract
         from pyvc import known, models
-        c = next(x for x in reg.all if x.name == name)
+        c = next(x for x in reg.all if x.name == name and not x.assumed)
         res = verify_contract(c, SourceIndex(), unroll=opts.get('unroll', 0), timeout_ms=opts.get('timeout_ms', 20000),
                               known=known.load(), pinned=opts.get('pinned'), max_paths=opts.get('max_paths', 6000),
                               budget_s=opts.get('budget_s', 600), shard=opts.get('shard'))
